@@ -101,6 +101,41 @@ pub fn main(args: &[String]) {
             rep.traces = rep.evaluations;
             rep.distinct = rep.evaluations;
         }
+        Some("templates") => {
+            // UriTemplate.tla: every template of the family in a one-entry format 2 mapping; the URI the client offers
+            // (PatchUri::uri_string) is the model's expansion, or an error where the model refuses the template
+            let path = arg_after(args, "--cases").expect("--cases");
+            fvcore::tlc_stream(&path, &["URICASE"], |_, c| {
+                rep.evaluations += 1;
+                let tbytes: Vec<u8> = c["template"].as_array().unwrap().iter().map(|x| x.as_u64().unwrap() as u8).collect();
+                let id = c["id"].as_u64().unwrap() as u32;
+                let Ok(tstr) = String::from_utf8(tbytes.clone()) else { return };
+                let entry = AbsEntry { cps: vec![0], feats: vec![], ds: vec![], kids: vec![], conj: false, ign: false, fmt: "glyph".into(), id };
+                let f = AbsFont { ift: Some(AbsTable { compat: 1, tmpl: format!("raw:{tstr}"), entries: vec![entry] }), iftx: None };
+                let built = build_font(&f, 1, &[]);
+                let font = FontRef::new(&built.bytes).unwrap();
+                let def = AbsDef { cps: vec![0], feats: vec![], ds: vec![], fall: false, dall: false, inverted: false };
+                let case = json!({"kind": "uri-template-case", "template": tbytes, "id": id});
+                let r = guarded(|| intersecting_patches(&font, &def.realise()).map(|v| v.iter().map(|u| u.uri_string().map_err(|_| ())).collect::<Vec<_>>()));
+                let want_ok = c["ok"] == true;
+                let want: String = c["out"].as_array().unwrap().iter().map(|x| x.as_u64().unwrap() as u8 as char).collect();
+                match r {
+                    Err(p) => rep.violation(&format!("expanding a URI template panicked: {p}"), case),
+                    Ok(Err(e)) => rep.violation(&format!("a one-entry mapping with this template is rejected as a whole: {e}"), case),
+                    Ok(Ok(v)) => {
+                        if v.len() != 1 {
+                            return rep.violation(&format!("{} patches offered for a one-entry mapping", v.len()), case);
+                        }
+                        match (&v[0], want_ok) {
+                            (Ok(s), true) if *s == want => rep.distinct += 1,
+                            (Err(_), false) => rep.distinct += 1,
+                            (got, _) => rep.violation(&format!("URI template {:?} with id {id}: the client answers {got:?}, the specification {}", tstr, if want_ok { format!("{want:?}") } else { "refuses the template".to_string() }), case),
+                        }
+                    }
+                }
+            });
+            rep.traces = rep.evaluations;
+        }
         Some("deepchain") => {
             // a chain of entries in which each one names its predecessor as only child, all ignored but the last: the
             // depth of the child relation is bounded by the entry count (24 bits) only, the stack by far less
